@@ -64,6 +64,7 @@ func buildArena(sc *pw.Scenario) error {
 	os.WriteFile("/w/src-evil/secret", []byte("OUT-9;"), 0o644)
 	os.Symlink(pw.SrcRoot, "/w/lnk-abs")
 	os.Symlink("src", "/w/lnk-rel")
+	os.Symlink("/w/lnk-abs", "/w/lnk-chain")
 	os.WriteFile("/w/hist1/.terraformignore", []byte("!x\ny\n"), 0o644)
 	os.WriteFile("/w/hist1/x", []byte("hx"), 0o644)
 	os.WriteFile("/w/hist1/y", []byte("hy"), 0o644)
@@ -148,7 +149,7 @@ func buildArena(sc *pw.Scenario) error {
 			return fmt.Errorf("times %s: %w", p, err)
 		}
 	}
-	for _, d := range []string{pw.SrcRoot, pw.ExtRoot, "/w/src-evil", "/w/src-evil/secret", "/w/lnk-abs", "/w/lnk-rel", "/w"} {
+	for _, d := range []string{pw.SrcRoot, pw.ExtRoot, "/w/src-evil", "/w/src-evil/secret", "/w/lnk-abs", "/w/lnk-rel", "/w/lnk-chain", "/w"} {
 		setTimes(d, 1300000000, 0)
 	}
 	return nil
@@ -187,6 +188,12 @@ func spell(s, cwd string) string {
 		return "/w/lnk-abs"
 	case "symlink-rel":
 		return "/w/lnk-rel"
+	case "symlink-abs-trail":
+		return "/w/lnk-abs/"
+	case "symlink-abs-dot":
+		return "/w/lnk-abs/."
+	case "symlink-chain":
+		return "/w/lnk-chain"
 	}
 	return pw.SrcRoot
 }
